@@ -99,6 +99,8 @@ class BGPPeering(BGPFactory):
 
         # reference to the BGPProtocol instance in ESTAB state
         self.estab_protocol = None
+        # the connector of the connection attempt in flight, if any
+        self.connector = None
 
     def buildProtocol(self, addr):
 
@@ -141,6 +143,10 @@ class BGPPeering(BGPFactory):
         :param reason: connection failed reason
         """
 
+        if connector is not self.connector:
+            # an attempt this peering has given up itself (abort_pending_connect)
+            return
+        self.connector = None
         error_msg = "[%s]Client connection failed: %s" % (self.peer_addr, reason.getErrorMessage())
         self.handler.on_connection_failed(self.peer_addr, reason.getErrorMessage())
         LOG.info(error_msg)
@@ -179,7 +185,19 @@ class BGPPeering(BGPFactory):
         """BGP ManualStop event (event 2) Returns a DeferredList that
         will fire once the connection(s) have closed"""
 
-        return self.fsm.manual_stop()
+        ret = self.fsm.manual_stop()
+        self.abort_pending_connect()
+        return ret
+
+    def abort_pending_connect(self):
+
+        """Gives up the connection attempt that is still in flight, if any:
+        at most one connection or connection attempt to the peer at any time."""
+
+        connector, self.connector = self.connector, None
+        if connector is not None and connector.state == 'connecting':
+            LOG.info("[%s]Abort the pending connection attempt", self.peer_addr)
+            connector.stopConnecting()
 
     def connection_closed(self, pro, disconnect=False):
         """
@@ -238,6 +256,7 @@ class BGPPeering(BGPFactory):
         # DEBUG
         LOG.info("(Re)connect to %s", self.peer_addr)
 
+        self.abort_pending_connect()
         if self.fsm.state != bgp_cons.ST_ESTABLISHED:
 
             connector = reactor.connectTCP(
@@ -253,6 +272,7 @@ class BGPPeering(BGPFactory):
                         socket.IPPROTO_TCP, bgp_cons.TCP_MD5SIG, md5sig)
                 else:
                     sys.exit()
+            self.connector = connector
             return True
         else:
             return False
